@@ -3,8 +3,11 @@ C18 — Path canonicalisation yields a clean relative path or refuses, for all s
 
 Property theorems only (helpers are in `Sqfs/Proofs/Path.lean`).  Every theorem
 quantifies over *all* byte strings `s` (a C string = its bytes before the NUL;
-none of the statements needs a NUL-freeness hypothesis because neither function
-looks at any byte value other than '/' and '.').
+the statements about the functional models need no NUL-freeness hypothesis because
+neither function looks at any byte value other than '/' and '.'; the three in-place
+theorems — `canon_inplace_memory`, `norm_inplace_memory`, `canon_inplace_eq_model` —
+are about the byte array `s ++ [0] ++ tail` and do assume `0 ∉ s`, which is what
+"`s` is the C string in that array" means).
 -/
 import Sqfs.Proofs.Path
 import Sqfs.Proofs.C18InPlace
@@ -247,5 +250,24 @@ example : Sqfs.PathIP.canonicalizeIP 10 [47,47,97,47,46,47,98,0,1,2] = some (.ok
 example : Sqfs.PathIP.canonicalizeIP 10 [97,47,46,46,0,7] = some .fail := by decide
 example : Sqfs.PathIP.normalizeIP 9 [47,47,97,47,47,98,47,0,9] = some [97,47,98,0,47,98,47,0,9] := by decide
 example : Sqfs.PathIP.canonInPlace [46,47,46,46,46,47,47] = some (some [46,46,46]) := by decide
+
+/-! the theorems applied to these inputs, every hypothesis discharged -/
+example := canon_eq_spec [47,47,97,47,46,47,98,47,47,99,47,46]
+example := (canon_fails_iff_dotdot [97,47,46,46,47,98]).1 (by decide)
+example := canon_same_entry_and_clean [47,47,97,47,46,47,98,47,47,99,47,46] [97,47,98,47,99] (by decide)
+example := canon_length_le [47,47,97,47,46,47,98,47,47,99,47,46] [97,47,98,47,99] (by decide)
+example := canon_idempotent [47,47,97,47,46,47,98,47,47,99,47,46] [97,47,98,47,99] (by decide)
+example := (sane_iff [46,46,46]).1 (by decide)
+example := norm_dst_le_src true true [47,47,97,47,46,47,98,47,47,99,47,46]
+example : ∃ r, canonGo true (normalizeSlashes [47,47,97,47,46,47,98,47,47,99,47,46]) = some r ∧
+    r.length ≤ (normalizeSlashes [47,47,97,47,46,47,98,47,47,99,47,46]).length := by
+  have hk : (canonGo true (normalizeSlashes [47,47,97,47,46,47,98,47,47,99,47,46])).isSome = true := by decide
+  cases h : canonGo true (normalizeSlashes [47,47,97,47,46,47,98,47,47,99,47,46]) with
+  | none => rw [h] at hk; cases hk
+  | some r => exact ⟨r, rfl, canon_dst_le_src true _ r h⟩
+example := canon_inplace_memory [47,47,97,47,46,47,98,47,47,99,47,46] (by decide) [1, 2] 20 (by decide)
+example := (canon_inplace_memory [97,47,46,46] (by decide) [7] 10 (by decide)).1 (by decide)
+example := norm_inplace_memory [47,47,97,47,46,47,98,47,47,99,47,46] (by decide) [9] 20 (by decide)
+example := canon_inplace_eq_model [47,47,97,47,46,47,98,47,47,99,47,46] (by decide)
 
 end Sqfs.C18
